@@ -375,4 +375,310 @@ theorem legacy_path_injective (n1 n2 : Name) (h1 : isFQM n1 = true) (h2 : isFQM 
   have h' := Option.some.inj h
   rw [← a.2, ← b.2, h']
 
+
+/-! ## 6. findings and what the legacy path does about case -/
+
+/-- **Witness of finding N1** (pinned `names.IsValid`): `h//m` parses to host `h`, EMPTY namespace, model `m`;
+    it is valid; it prints as `h/m`; that parses back with `h` as the namespace.  The repaired validity
+    (`isValidNv true`) rejects it. -/
+theorem N1_bare_roundtrip_witness :
+    let s : Bytes := [104, 47, 47, 109]
+    parseN s = { host := [104], ns := [], model := [109], tag := [] } ∧
+    isValidN (parseN s) = true ∧
+    toStr (parseN s) = [104, 47, 109] ∧
+    parseN (toStr (parseN s)) = { host := [], ns := [104], model := [109], tag := [] } ∧
+    isValidNv true (parseN s) = false ∧
+    -- the legacy parser rejects the same input, and the client's merged name round-trips
+    isFQM (parseName s) = false ∧
+    registryParseName defaultMask s = some { host := [104], ns := sLibrary, model := [109], tag := sLatest } := by
+  decide
+
+/-- **Legacy path keeps case** (witness): `h/n/M:t` and `h/n/m:t` are both accepted, equal under case folding,
+    and map to different legacy manifest paths; the new cache's lookup predicate does not tell them apart. -/
+theorem legacy_case_twins_witness :
+    let a : Name := { host := [104], ns := [110], model := [77], tag := [116] }
+    let b : Name := { host := [104], ns := [110], model := [109], tag := [116] }
+    isFQM a = true ∧ isFQM b = true ∧ equalFold (toStr a) (toStr b) = true ∧ filepathM a ≠ filepathM b := by
+  decide
+
+/-! ## 7. digests -/
+
+theorem isHexB_not_bad (c : UInt8) (h : isHexB c = true) : badByte c = false ∧ c ≠ cColon ∧ c ≠ cDot := by
+  refine ⟨?_, ?_, ?_⟩
+  · cases hb : badByte c with
+    | false => rfl
+    | true =>
+      exfalso
+      simp only [badByte, Bool.or_eq_true, beq_iff_eq] at hb
+      rcases hb with ((hb | hb) | hb) | hb <;> (subst hb; revert h; decide)
+  · intro e; subst e; revert h; decide
+  · intro e; subst e; revert h; decide
+
+/-- the file name `sha256-<hex>` is a safe component whenever `<hex>` consists of hex digits -/
+theorem safe_blob_name (hex : Bytes) (h : ∀ c ∈ hex, isHexB c = true) : SafeComp (sSha256 ++ cDash :: hex) := by
+  refine ⟨by simp [sSha256], by simp [sSha256, sDot], by simp [sSha256, sDotDot], ?_, by simp [sSha256, cDot]⟩
+  intro c hc
+  rcases List.mem_append.mp hc with hc | hc
+  · have hsha : ∀ c ∈ sSha256, badByte c = false := by decide
+    exact hsha c hc
+  · rcases List.mem_cons.mp hc with rfl | hc
+    · decide
+    · exact (isHexB_not_bad c (h c hc)).1
+
+/-- what the digest regexp accepts: `sha256`, one of `:`/`-`, exactly 64 hex digits, nothing else -/
+theorem digest_re_shape (s : Bytes) (h : matchDigestRe s = true) :
+    ∃ sep hex, s = sSha256 ++ sep :: hex ∧ (sep = cColon ∨ sep = cDash) ∧ hex.length = 64 ∧
+      ∀ c ∈ hex, isHexB c = true := by
+  simp only [matchDigestRe, Bool.and_eq_true, beq_iff_eq] at h
+  obtain ⟨h6, hrest⟩ := h
+  split at hrest
+  · rename_i sep hex hdrop
+    simp only [Bool.and_eq_true, Bool.or_eq_true, beq_iff_eq, List.all_eq_true] at hrest
+    refine ⟨sep, hex, ?_, hrest.1.1, hrest.1.2, hrest.2⟩
+    rw [← h6, ← hdrop]; exact (List.take_append_drop 6 s).symm
+  · cases hrest
+
+theorem colonToDash_hex (hex : Bytes) (h : ∀ c ∈ hex, isHexB c = true) : colonToDash hex = hex := by
+  unfold colonToDash
+  have : hex.map (fun c => if c == cColon then cDash else c) = hex.map id :=
+    List.map_congr_left (fun c hc => by
+      have hx : (c == cColon) = false := by simpa using (isHexB_not_bad c (h c hc)).2.1
+      simp [hx])
+  rw [this, List.map_id]
+
+/-- **Legacy blob path confinement** (`server.GetBlobsPath`): for every byte string, the call is refused, or
+    the string is empty and the result is the blobs directory itself (`<models>/blobs`, the documented
+    overload), or the result is `<models>/blobs/sha256-<64 hex digits>`: one safe component below `blobs`. -/
+theorem blob_path_confined_legacy (rc : List Bytes) (hrc : rc ≠ []) (hs : ∀ c ∈ rc, SafeComp c) (d : Bytes) :
+    getBlobsPath (absPath rc) d = none ∨
+    (d = [] ∧ getBlobsPath (absPath rc) d = some (absPath (rc ++ [sBlobs]))) ∨
+    ∃ hex, hex.length = 64 ∧ (∀ c ∈ hex, isHexB c = true) ∧ SafeComp (sSha256 ++ cDash :: hex) ∧
+      getBlobsPath (absPath rc) d = some (absPath (rc ++ [sBlobs, sSha256 ++ cDash :: hex])) := by
+  cases d with
+  | nil =>
+    right; left
+    refine ⟨rfl, ?_⟩
+    have hsafe : ∀ c ∈ rc ++ [sBlobs], SafeComp c := by
+      intro c hc
+      rcases List.mem_append.mp hc with h | h
+      · exact hs c h
+      · simp only [List.mem_cons, List.not_mem_nil, or_false] at h; subst h; exact safe_blobs
+    have hroot : (absPath rc).isEmpty = false := by simp [absPath]
+    have hj : joinWith cSlash [absPath rc, sBlobs, []] = absPath (rc ++ [sBlobs]) ++ [cSlash] := by
+      simp only [absPath, joinWith_append cSlash rc [sBlobs] hrc (by simp), joinWith]
+      simp
+    have hsplit : splitOn cSlash (absPath (rc ++ [sBlobs]) ++ [cSlash]) = [] :: ((rc ++ [sBlobs]) ++ [[]]) := by
+      have h0 := splitOn_append cSlash [] (joinWith cSlash (rc ++ [sBlobs]) ++ [cSlash]) (by simp)
+      simp only [List.nil_append] at h0
+      have h1 : joinWith cSlash (rc ++ [sBlobs]) ++ [cSlash]
+          = joinWith cSlash ((rc ++ [sBlobs]) ++ [[]]) := by
+        rw [joinWith_append cSlash (rc ++ [sBlobs]) [[]] (by simp) (by simp)]; simp [joinWith]
+      have hall : ∀ p ∈ (rc ++ [sBlobs]) ++ [[]], ∀ x ∈ p, x ≠ cSlash := by
+        intro p hp
+        rcases List.mem_append.mp hp with h | h
+        · exact (hsafe p h).noSlash
+        · simp only [List.mem_cons, List.not_mem_nil, or_false] at h; subst h; intro x hx; cases hx
+      show splitOn cSlash (cSlash :: joinWith cSlash (rc ++ [sBlobs]) ++ [cSlash]) = _
+      rw [List.cons_append, h0, h1, splitOn_joinWith cSlash _ (by simp) hall]
+    simp only [getBlobsPath, List.isEmpty_nil, Bool.not_true, Bool.false_and, Bool.false_eq_true, if_false]
+    congr 1
+    show pathJoin [absPath rc, sBlobs, colonToDash []] = _
+    unfold pathJoin
+    simp only [colonToDash, List.map_nil, List.dropWhile, hroot]
+    rw [hj]
+    unfold clean
+    have h1 : (absPath (rc ++ [sBlobs]) ++ [cSlash]).isEmpty = false := by simp [absPath]
+    have h2 : ((absPath (rc ++ [sBlobs]) ++ [cSlash]).head? == some cSlash) = true := by simp [absPath]
+    simp only [h1, h2, hsplit, List.foldl_cons]
+    have h3 : cleanStep true [] [] = [] := by simp [cleanStep]
+    rw [h3, List.foldl_append, foldl_cleanStep_safe true _ [] hsafe]
+    have h4 : ∀ st, cleanStep true st [] = st := by intro st; simp [cleanStep]
+    simp only [List.foldl_cons, List.foldl_nil, h4]
+    simp [absPath]
+  | cons x xs =>
+    cases hm : matchDigestRe (x :: xs) with
+    | false => left; simp [getBlobsPath, hm]
+    | true =>
+      right; right
+      obtain ⟨sep, hex, hs', hsep, hlen, hhex⟩ := digest_re_shape _ hm
+      refine ⟨hex, hlen, hhex, safe_blob_name hex hhex, ?_⟩
+      have hc : colonToDash (x :: xs) = sSha256 ++ cDash :: hex := by
+        rw [hs']
+        have h1 : colonToDash (sSha256 ++ sep :: hex) = colonToDash sSha256 ++ (colonToDash [sep] ++ colonToDash hex) := by
+          simp [colonToDash]
+        have e1 : colonToDash sSha256 = sSha256 := by decide
+        have e2 : colonToDash [cColon] = [cDash] := by decide
+        have e3 : colonToDash [cDash] = [cDash] := by decide
+        rw [h1, colonToDash_hex hex hhex, e1]
+        rcases hsep with rfl | rfl
+        · rw [e2]; rfl
+        · rw [e3]; rfl
+      simp only [getBlobsPath, hm, List.isEmpty_cons, Bool.not_false, Bool.true_and, Bool.not_true,
+        Bool.false_eq_true, if_false, hc]
+      have := pathJoin_root rc hrc hs sBlobs safe_blobs [sSha256 ++ cDash :: hex] (by simp)
+        (by intro c hc; simp only [List.mem_cons, List.not_mem_nil, or_false] at hc; subst hc; exact safe_blob_name hex hhex)
+      simp only [joinWith] at this
+      rw [this]
+
+
+/-! ## 8. the new cache: case folding and confinement of `manifestPath` -/
+
+/-- names equal up to ASCII case, part by part (`names.Name.Compare(o) == 0`) -/
+def foldEqName (a b : Name) : Prop :=
+  a.host.map toLowerB = b.host.map toLowerB ∧ a.ns.map toLowerB = b.ns.map toLowerB ∧
+  a.model.map toLowerB = b.model.map toLowerB ∧ a.tag.map toLowerB = b.tag.map toLowerB
+
+theorem pathJoin_manifests (comps : List Bytes) (hne : comps ≠ []) (hc : ∀ c ∈ comps, SafeComp c) :
+    pathJoin [sManifests, joinWith cSlash comps] = joinWith cSlash (sManifests :: comps) := by
+  obtain ⟨c0, cs, rfl⟩ := List.exists_cons_of_ne_nil hne
+  have hm : sManifests.isEmpty = false := by decide
+  unfold pathJoin
+  simp only [List.dropWhile, hm]
+  have : joinWith cSlash [sManifests, joinWith cSlash (c0 :: cs)] = joinWith cSlash (sManifests :: c0 :: cs) := by
+    simp [joinWith]
+  rw [this]
+  apply clean_relPath _ (by simp)
+  intro c hcm
+  rcases List.mem_cons.mp hcm with rfl | h
+  · exact safe_manifests
+  · exact hc c h
+
+/-- **Case-insensitive equality ⇒ same manifest path (new cache).**  For every cache directory, every on-disk
+    link listing and every two input strings that `nameToPath` accepts and whose parsed names are equal up to
+    case: the lookup selects the same link for both; so whenever a manifest for either spelling exists on disk
+    both names resolve to that one existing file.  (When none exists each gets the path where ITS spelling
+    would be created; nothing on disk is addressed.) -/
+theorem fold_same_path (dir : Bytes) (links : List Bytes) (s1 s2 : Bytes)
+    (h1 : nameToPath s1 ≠ none) (h2 : nameToPath s2 ≠ none) (hf : foldEqName (parseN s1) (parseN s2)) :
+    let want (s : Bytes) := pathJoin [sManifests, joinWith cSlash [(parseN s).host, (parseN s).ns, (parseN s).model, (parseN s).tag]]
+    links.find? (equalFold (want s1)) = links.find? (equalFold (want s2)) ∧
+    (∀ l, links.find? (equalFold (want s1)) = some l →
+      manifestPath dir links s1 = some (pathJoin [dir, l]) ∧ manifestPath dir links s2 = some (pathJoin [dir, l])) ∧
+    (links.find? (equalFold (want s1)) = none →
+      manifestPath dir links s1 = some (pathJoin [dir, want s1]) ∧
+      manifestPath dir links s2 = some (pathJoin [dir, want s2])) := by
+  intro want
+  rcases nameToPath_shape s1 with h | ⟨_, hp1, hs1⟩
+  · exact absurd h h1
+  rcases nameToPath_shape s2 with h | ⟨_, hp2, hs2⟩
+  · exact absurd h h2
+  have hw : (want s1).map toLowerB = (want s2).map toLowerB := by
+    simp only [want]
+    rw [pathJoin_manifests _ (by simp) hs1, pathJoin_manifests _ (by simp) hs2]
+    obtain ⟨a, b, c, d⟩ := hf
+    simp [joinWith, List.map_append, a, b, c, d]
+  have hpred : equalFold (want s1) = equalFold (want s2) := by
+    funext l; simp [equalFold, hw]
+  refine ⟨by rw [hpred], ?_, ?_⟩
+  · intro l hl
+    have hl2 : links.find? (equalFold (want s2)) = some l := by rw [← hpred]; exact hl
+    constructor
+    · simp only [manifestPath, hp1]; simp only [want] at hl; simp [hl]
+    · simp only [manifestPath, hp2]; simp only [want] at hl2; simp [hl2]
+  · intro hl
+    have hl2 : links.find? (equalFold (want s2)) = none := by rw [← hpred]; exact hl
+    constructor
+    · simp only [manifestPath, hp1]; simp only [want] at hl; simp [hl, want]
+    · simp only [manifestPath, hp2]; simp only [want] at hl2; simp [hl2, want]
+
+/-- **New cache manifest path confinement**: for every input string and every listing, `manifestPath` refuses,
+    or returns `<dir>/<l>` for a link `l` of the on-disk listing (produced by `fs.Glob("manifests/*/*/*/*")`),
+    or returns `<dir>/manifests/<host>/<ns>/<model>/<tag>` with exactly these safe components. -/
+theorem manifest_path_confined_cache (rc : List Bytes) (hrc : rc ≠ []) (hs : ∀ c ∈ rc, SafeComp c)
+    (links : List Bytes) (s : Bytes) :
+    manifestPath (absPath rc) links s = none ∨
+    (∃ l ∈ links, manifestPath (absPath rc) links s = some (pathJoin [absPath rc, l])) ∨
+    ∃ h ns m t, (∀ c ∈ [h, ns, m, t], SafeComp c) ∧
+      manifestPath (absPath rc) links s = some (absPath (rc ++ [sManifests, h, ns, m, t])) := by
+  rcases nameToPath_shape s with h | ⟨_, hp, hsafe⟩
+  · left; simp [manifestPath, h]
+  · right
+    simp only [manifestPath, hp]
+    cases hfind : links.find? (equalFold (pathJoin [sManifests,
+        joinWith cSlash [(parseN s).host, (parseN s).ns, (parseN s).model, (parseN s).tag]])) with
+    | some l => left; exact ⟨l, List.mem_of_find?_eq_some hfind, rfl⟩
+    | none =>
+      right
+      refine ⟨_, _, _, _, hsafe, ?_⟩
+      simp only
+      rw [pathJoin_manifests _ (by simp) hsafe]
+      have := pathJoin_root rc hrc hs sManifests safe_manifests _ (by simp) hsafe
+      simp only [joinWith] at this ⊢
+      exact congrArg some this
+
+/-- **Registry client**: whatever `parseNameExtended` accepts is either "digest only" (zero name) or a fully
+    qualified name, whose printed form the cache's `nameToPath` accepts and maps to its four parts. -/
+theorem ext_accepted_fq (mask : Name) (s scheme d : Bytes) (n : Name)
+    (h : parseNameExtended mask s = .ok (scheme, n, d)) :
+    n = Name.zero ∨ (isFQN n = true ∧
+      nameToPath (toStr n) = some (joinWith cSlash [n.host, n.ns, n.model, n.tag])) := by
+  unfold parseNameExtended at h
+  simp only at h
+  split at h
+  · cases h
+  · split at h
+    · cases h
+    · split at h
+      · left; cases h; rfl
+      · split at h
+        · rename_i n' hn
+          cases h
+          right
+          obtain ⟨hp, _, hfq⟩ := roundtrip_names mask _ _ hn
+          have hfq' : isFQM n = true := by rw [isFQM_eq_isFQN]; exact hfq
+          exact ⟨hfq, by simp [nameToPath, hp, hfq, pathJoin_parts hfq']⟩
+        · cases h
+
+
+/-! ## 9. the new cache's blob path -/
+
+theorem lowerHexDigit_hex : ∀ n, n < 16 → isHexB (lowerHexDigit n) = true := by decide
+
+theorem hexEncode_hex (bs : Bytes) : ∀ c ∈ hexEncode bs, isHexB c = true := by
+  intro c hc
+  simp only [hexEncode, List.mem_flatMap, List.mem_cons, List.not_mem_nil, or_false] at hc
+  obtain ⟨b, _, rfl | rfl⟩ := hc
+  · exact lowerHexDigit_hex _ (by have := b.toNat_lt; omega)
+  · exact lowerHexDigit_hex _ (by omega)
+
+/-- **New cache blob path confinement** (`DiskCache.GetFile`): for every digest value (any bytes), the path is
+    `<dir>/blobs/sha256-<lower-case hex>`: exactly one safe component below `blobs`. -/
+theorem blob_path_confined_cache (rc : List Bytes) (hrc : rc ≠ []) (hs : ∀ c ∈ rc, SafeComp c) (sum : Bytes) :
+    getFile (absPath rc) sum = absPath (rc ++ [sBlobs, sSha256 ++ cDash :: hexEncode sum]) ∧
+    SafeComp (sSha256 ++ cDash :: hexEncode sum) := by
+  have hsafe := safe_blob_name _ (hexEncode_hex sum)
+  have hall : ∀ c ∈ [sSha256 ++ cDash :: hexEncode sum], SafeComp c := by
+    intro c hc; simp only [List.mem_cons, List.not_mem_nil, or_false] at hc; subst hc; exact hsafe
+  refine ⟨?_, hsafe⟩
+  have := pathJoin_root rc hrc hs sBlobs safe_blobs [sSha256 ++ cDash :: hexEncode sum] (by simp) hall
+  simp only [joinWith] at this
+  unfold getFile
+  rw [this]
+  apply clean_absPath _ (by simp)
+  intro c hc
+  rcases List.mem_append.mp hc with h | h
+  · exact hs c h
+  · rcases List.mem_cons.mp h with rfl | h
+    · exact safe_blobs
+    · exact hall c h
+
+/-! ## 10. non-vacuity -/
+
+/-- the hypotheses of the theorems above are met by non-trivial concrete values: a fully qualified name with a
+    port in the host and dots/dashes, a two-component models directory, a well-formed digest -/
+example :
+    let n : Name := { host := [104, 58, 56, 48], ns := [110, 45, 49], model := [109, 46, 50], tag := [118, 95, 51] }
+    isFQM n = true ∧ isFQN n = true ∧ isFQM (parseName [109]) = true ∧
+    registryParseName defaultMask [104, 47, 47, 109] ≠ none ∧
+    nameToPath (toStr n) ≠ none ∧
+    matchDigestRe (sSha256 ++ cColon :: List.replicate 64 97) = true ∧
+    parseNameFromFilepath [104, 47, 110, 47, 109, 47, 116] ≠ Name.zero := by
+  decide
+
+example : ([[111], [109]] : List Bytes) ≠ [] ∧ ∀ c ∈ ([[111], [109]] : List Bytes), SafeComp c := by
+  refine ⟨by simp, ?_⟩
+  intro c hc
+  simp only [List.mem_cons, List.not_mem_nil, or_false] at hc
+  rcases hc with rfl | rfl <;> exact ⟨by decide, by decide, by decide, by decide, by decide⟩
+
 end OllamaVerif.C13
